@@ -1,11 +1,19 @@
 import PyaModel.Proofs.C01
 /-!
-# Props/C01 — inferred values are sound with respect to execution (stages S1, S2a, S1b: the MiniPy fragment)
+# Props/C01 — inferred values are sound with respect to execution (stages S1, S2a, S1b, S1c, S3a: the MiniPy fragment)
 
 Fragment (`Core/MiniPy.lean`): functions with declared parameter types; expressions: literals, names,
 tuple / list displays, subscripts with a literal int index, conditional expressions, calls to annotated helper
-functions; conditions `x is None`, `x is not None`, `not …`; statements: assignment, iterable unpacking
-`x1, …, xn = e` (no starred target), `if`/`else` (nested, with early `return`), `return`.
+functions, `a + b` on ints / bools / strs; conditions `x is None`, `x is not None`, `not …`; statements: assignment, iterable unpacking
+`x1, …, xn = e` (no starred target), augmented assignment `x += e` (ints / bools / strs), `if`/`else` (nested, with
+early `return`), `return`, and `for x in e: body`
+(any iterable value of the fragment, any number of iterations, nested loops; no break / continue / else).
+Loops: `infer` models pyanalyze's three visits of a loop body (two while collecting, one while checking, the reads of
+the checking visit using the definitions recorded by both collecting visits); that scheme is NOT a fixed-point
+iteration, so the theorem carries the decidable side condition `loopNotFix = false` — the definitions the body
+leaves are covered by the ones assumed at the loop head — which is exactly what fails in the known class
+`loopCarriedLiteral` (`loopCarried_witness`). The model of the three visits is exact only for bodies made of
+assignments / unpackings without conditional expressions (`simpleBody`); other bodies raise `frag`.
 Calls: the helper functions are a parameter `impl` of the semantics; the theorems assume `ImplOk impl prog.rets` —
 whatever a helper returns belongs to its declared return type (for ALL arguments: the assumption is on the callee's
 semantics, not on the arguments it is given).
@@ -13,8 +21,8 @@ semantics, not on the arguments it is given).
 pyanalyze on every run, stream `mini`), `exec` is CPython's behaviour (`Spec/MiniSem.lean`, validated against
 CPython, stream `eval`), membership is `mem` (`Spec/Mem.lean`).
 
-Loops, `try`, `match`, generic / builtin calls, starred unpacking, augmented assignment, boolean operators and the
-other narrowing forms of the property are NOT covered by these theorems; for them the verdict rests on the execution search of the harness.
+`while`, break / continue / loop `else`, `try`, `match`, generic / builtin calls, starred unpacking, the other
+operators and `+` on other operand types (flagged `frag`), boolean operators and the other narrowing forms of the property are NOT covered by these theorems; for them the verdict rests on the execution search of the harness.
 -/
 namespace Pya.C01
 open Pya
@@ -26,12 +34,15 @@ def InferSound (impl : Impl) (prog : Prog) : Prop :=
   ∀ (args : List Obj), argsOk prog.params args = true →
     ∀ n o, (n, o) ∈ (exec impl prog args).2 → ∃ T, (n, T) ∈ (infer prog).log ∧ mem liveTable o T = true
 
-/-- **Soundness outside the exception classes (stages S1, S2a, S1b).** For every program of the fragment — any size,
-any nesting of `if`/`else` and conditional expressions, unpacking and helper calls included —, for all helper
+/-- **Soundness outside the exception classes (stages S1, S2a, S1b, S1c, S3a).** For every program of the fragment — any
+size, any nesting of `if`/`else`, conditional expressions and `for` loops, unpacking and helper calls included —, for
+all helper
 implementations that respect their declared return types (`ImplOk`), on which the inference raises no flag
 (`noneReject`: the model of `is_assignable(Literal[None])` rejects a member that contains `None`, never
 observed; `literalEqMerge`: a literal subscript selects an element equal to 0 / 1 / False / True out of a
-literal container, or a literal container holding such an element is unpacked; `frag`: a subscript / unpacking
+literal container, or a literal container holding such an element is unpacked or iterated; `loopNotFix`: the
+definition nodes a loop body leaves are not covered by those assumed at the loop head; `frag`: a loop body that is
+not `simpleBody`, a subscript / unpacking
 with an unpacked tuple member or on a base that is not a tuple / list form), and for all arguments drawn from the declared parameter types: every value an evaluated expression node
 yields at run time is a member of the value inferred for that node. Proved by induction on the program, with
 `unite_mem` (C14) for the joins and the C19 `getitem` lemmas for subscripts. -/
@@ -94,12 +105,26 @@ def witnessProg : Prog :=
              .ret (.sub (.var 1) 0)] }
 
 /-- a kernel-evaluable upper bound of `mem`: exact on literals, `true` elsewhere -/
-def memK (o : Obj) : Ty → Bool
+def memK1 (o : Obj) : Ty → Bool
   | .known k => Obj.same o k
   | _ => true
 
+def memK (o : Obj) : Ty → Bool
+  | .known k => Obj.same o k
+  | .union ts => ts.any (memK1 o)
+  | _ => true
+
+theorem memK1_of_mem (o : Obj) (T : Ty) (h : mem liveTable o T = true) : memK1 o T = true := by
+  cases T <;> simp_all [memK1, mem]
+
 theorem memK_of_mem (o : Obj) (T : Ty) (h : mem liveTable o T = true) : memK o T = true := by
-  cases T <;> simp_all [memK, mem]
+  cases T with
+  | union ts =>
+    simp only [mem] at h
+    rw [memAny_eq_any] at h
+    obtain ⟨t, ht, hm⟩ := List.any_eq_true.mp h
+    exact List.any_eq_true.mpr ⟨t, ht, memK1_of_mem o t hm⟩
+  | _ => simp_all [memK, mem]
 
 /-- decidable necessary condition of the statement for one argument tuple -/
 def soundOnK (prog : Prog) (args : List Obj) : Bool :=
@@ -117,6 +142,55 @@ theorem witness_args_ok : argsOk witnessProg.params [Obj.none] = true := by
   simp [argsOk, witnessProg, mem, Obj.same, Obj.tag, Obj.pyEq]
 theorem witness_flag : (infer witnessProg).flags.litEq = true := by decide +kernel
 theorem witness_unsound : soundOnK witnessProg [Obj.none] = false := by decide +kernel
+
+/-! ## The exception class `loopCarriedLiteral` (`loopNotFix`) is real
+
+```python
+def f():
+    t = ()
+    for x in (2, 3, 5):
+        t = (t,)
+    return t
+```
+The read of `t` in the loop body is inferred from the definitions of the two collecting visits:
+`Literal[()] | Literal[(((),),)]`; in the second iteration it is `((),)`. -/
+def witnessLoop : Prog :=
+  { params := [],
+    body := [.assign 0 (.disp false []),
+             .forS 1 (.disp false [.lit (.int 2), .lit (.int 3), .lit (.int 5)]) [.assign 0 (.disp false [.var 0])],
+             .ret (.var 0)] }
+
+theorem witnessLoop_flag : (infer witnessLoop).flags.loopNotFix = true := by decide +kernel
+theorem witnessLoop_unsound : soundOnK witnessLoop [] = false := by decide +kernel
+
+/-- **Witness for `loopCarriedLiteral`:** the full statement is false on a loop whose body updates a variable from its
+own previous value. -/
+theorem loopCarried_witness : ¬ InferSound (fun _ _ => none) witnessLoop := fun h => by
+  have := soundOnK_of_InferSound witnessLoop [] h (by simp [argsOk, witnessLoop])
+  rw [witnessLoop_unsound] at this
+  cases this
+
+/-- the counter: ```python
+def f():
+    n = 0
+    for x in (2, 3):
+        n += 1
+    return n          # inferred Literal[1] | Literal[3]; really 2
+``` -/
+def witnessCounter : Prog :=
+  { params := [],
+    body := [.assign 0 (.lit (.int 0)),
+             .forS 1 (.disp false [.lit (.int 2), .lit (.int 3)]) [.aug 0 (.lit (.int 1))],
+             .ret (.var 0)] }
+
+theorem witnessCounter_flag : (infer witnessCounter).flags.loopNotFix = true := by decide +kernel
+theorem witnessCounter_unsound : soundOnK witnessCounter [] = false := by decide +kernel
+
+/-- **Second witness for `loopCarriedLiteral`:** a literal counter. -/
+theorem loopCounter_witness : ¬ InferSound (fun _ _ => none) witnessCounter := fun h => by
+  have := soundOnK_of_InferSound witnessCounter [] h (by simp [argsOk, witnessCounter])
+  rw [witnessCounter_unsound] at this
+  cases this
 
 /-- **Witness for `literalEqMerge`:** the full statement is false. -/
 theorem literalEqMerge_witness : ¬ InferSound (fun _ _ => none) witnessProg := fun h => by
@@ -159,6 +233,42 @@ def exProg2 : Prog :=
 example : (infer exProg2).flags.none = true := by decide +kernel
 example (impl : Impl) (h : ImplOk impl exProg2.rets) : InferSound impl exProg2 :=
   infer_sound_partial impl exProg2 h (by decide +kernel)
+
+/-- ```python
+def g3(xs: list[int], t: tuple[int, str]):
+    y = t[0]
+    for x in xs:
+        z = (x, y)      # reads the loop-carried y: its definitions before the loop and at the end of the body
+        y = x
+    return [y]
+``` -/
+def exProg3 : Prog :=
+  { params := [.generic C.list [.typed C.int], .seq C.tuple [.typed C.int, .typed C.str]],
+    body := [.assign 2 (.sub (.var 1) 0),
+             .forS 3 (.var 0) [.assign 4 (.disp false [.var 3, .var 2]), .assign 2 (.var 3)],
+             .ret (.disp true [.var 2])] }
+
+example : (infer exProg3).flags.none = true := by decide +kernel
+example (impl : Impl) : InferSound impl exProg3 :=
+  infer_sound_partial impl exProg3 (fun f os r _ => by simp [exProg3, mem]) (by decide +kernel)
+
+/-- a counter with non-literal increments IS covered (the inferred `int` is a fixed point): ```python
+def g4(xs: list[int], s: str):
+    n = 0
+    for x in xs:
+        n += x
+        s += "a"
+    return (n + 1, s)
+``` -/
+def exProg4 : Prog :=
+  { params := [.generic C.list [.typed C.int], .typed C.str],
+    body := [.assign 2 (.lit (.int 0)),
+             .forS 3 (.var 0) [.aug 2 (.var 3), .aug 1 (.lit (.str "a"))],
+             .ret (.disp false [.add (.var 2) (.lit (.int 1)), .var 1])] }
+
+example : (infer exProg4).flags.none = true := by decide +kernel
+example (impl : Impl) : InferSound impl exProg4 :=
+  infer_sound_partial impl exProg4 (fun f os r _ => by simp [exProg4, mem]) (by decide +kernel)
 
 example : (infer exProg).flags.none = true := by decide +kernel
 theorem exProg_args_ok : argsOk exProg.params [.none, .tuple [.int 3, .str "b"]] = true := by
